@@ -164,18 +164,18 @@ def main():
         "setup_cmd": "./check setup",
         "hooks": {
             "guard": "HEXITAL_VERIF",
-            "enable": "no hooks: every seam is the public API of hexital or the process environment (TZ, PYTHONHASHSEED); checks import /repo's working tree directly (PYTHONPATH=/repo)",
+            "enable": "no hooks in /repo: every seam is the public API of hexital, the process environment (TZ, PYTHONHASHSEED) or, from outside and in the check process only, the datetime / time names bound in hexital's modules (hexsim/simclock.py rebinds them to a simulated clock); checks import /repo's working tree directly (PYTHONPATH=/repo)",
             "baseline_off_cmd": "cd /repo && /venv/bin/python -m pytest -ra -q -p no:cacheprovider --timeout=900 --continue-on-collection-errors",
             "source_commits": [],
             "add_only": True,
         },
         "engines": [{
             "name": "hexsim", "path": "hexsim/", "serves_properties": claimed,
-            "kind_free_text": "deterministic simulation: a seeded discrete-event world (exchange, feed with fault injection, operator, observer, TZ environment) is planned into an explicit JSON trace and executed on real hexital objects next to twins and small reference models; step budget via sys.monitoring; ddmin shrinking; replay files; fork pool with index-ordered merge",
+            "kind_free_text": "deterministic simulation: a seeded discrete-event world (exchange, feed with fault injection, operator, observer, process environment: time zone, simulated wall clock, string-hash seed, neighbour objects in the same process) is planned into an explicit JSON trace and executed on real hexital objects next to twins and small reference models; step budget via sys.monitoring; every chunk of runs and every shrink candidate in a forked child of a pristine process; ddmin shrinking; replay files (one trace, or a sequence of traces when the violation needs the history of the process); fork pool with index-ordered merge; a second leg under another hash seed",
         }],
         "checks": checks,
         "not_applicable": na,
-        "notes": "See DESIGN.md. Exit codes: 0 held / 1 VIOLATION / 2 harness error. known_findings.json lists fixed and known findings; reproducers under known/ are replayed at the start of each check.",
+        "notes": "See DESIGN.md (sections 14-16 for what was built after the design, the findings and which checks catch which seeded changes). Exit codes: 0 held / 1 VIOLATION / 2 harness error. known_findings.json lists fixed and known findings; reproducers under known/ are replayed at the start of each check.",
     }
     with open(os.path.join(VERIF, "MANIFEST.json"), "w") as fh:
         json.dump(manifest, fh, indent=1)
